@@ -347,7 +347,8 @@ class TypeChecker(walkers.dag.DagWalker):
         else:
             left_lower = -float("inf") if left.lower_bound is None else left.lower_bound
             left_upper = float("inf") if left.upper_bound is None else left.upper_bound
-            right = right.lower_bound
+            # divide exactly: int / int would round the quotient to a float
+            right = Fraction(right.lower_bound)
             lower = min(left_lower / right, left_upper / right)
             upper = max(left_lower / right, left_upper / right)
         if lower == -float("inf"):
